@@ -83,6 +83,12 @@ def enforce_case(rules, call, target, creds, dflt=None, registered=(), enforce_s
             args.append(ev.CustomExc)
             args.extend(xargs)
             kwargs.update(xkw)
+        elif xargs or xkw:
+            # extra arguments but no exception class: they are ignored, PolicyNotAuthorized names the policy
+            if xargs:
+                args.append(None)
+                args.extend(xargs)
+            kwargs.update(xkw)
     obs = ev.observe(lambda: fn(*args, **kwargs))
     obs['log'] = [list(x) for x in ev.PROBE_LOG]
     obs['named'] = 1 if (obs['cls'] == 'PolicyNotAuthorized' and call['by'] == 'name' and
@@ -164,7 +170,7 @@ class Session:
         self.cur = list(rules)
         self.log = []
 
-    def set_rules(self, rules, overwrite=True, how='rules_obj'):
+    def set_rules(self, rules, overwrite=True, how='rules_obj', scribble=False):
         from oslo_policy import policy, _parser
         texts = {n: ev.rule_text(t) for n, t in rules}
         if how == 'rules_obj':
@@ -174,6 +180,13 @@ class Session:
         else:
             arg = {n: _parser.parse_rule(t) for n, t in texts.items()}
         self.e.set_rules(arg, overwrite=overwrite, use_conf=False)
+        if scribble:
+            # the caller goes on using ITS object: the enforcer's rule store is not the caller's mapping
+            from oslo_policy import _checks
+            arg.clear()
+            for nm in ('zz', 'n1', 'n2', 'd', 'default'):
+                arg[nm] = _checks.TrueCheck()
+            self.log.append('caller then clears the mapping it passed and defines zz, n1, n2, d, default = @ in it')
         self.trace['events'].append({'op': 'set_rules', 'overwrite': 1 if overwrite else 0, 'rules': [[n, ev.strip(t)] for n, t in rules]})
         self.log.append('set_rules(%r, overwrite=%s, as %s)' % (texts, overwrite, how))
         if overwrite:
@@ -212,11 +225,6 @@ def judge_sessions(ctx, sessions, timeout=3000, _canary=True):
     import tempfile
     if not sessions:
         return []
-    if _canary:
-        from harness import canary
-        from checks import canaries
-        canary.probe(ctx, 'Trace_Store', [s.trace for s in sessions], canaries.session,
-                     lambda trs: {si for si, _ in judge_sessions(canary.NullCtx(), [_S(t) for t in trs], timeout, _canary=False)}, k=8)
     fd, path = tempfile.mkstemp(prefix='verif_sessions_', suffix='.json')
     try:
         with os.fdopen(fd, 'w') as f:
@@ -236,4 +244,9 @@ def judge_sessions(ctx, sessions, timeout=3000, _canary=True):
         l = int(re.findall(r'\bl = (\d+)', v['text'])[-1])
         if cid not in bad or l < bad[cid]:
             bad[cid] = l
+    if _canary:
+        from harness import canary
+        from checks import canaries
+        canary.probe(ctx, 'Trace_Store', [s.trace for i, s in enumerate(sessions, 1) if i not in bad], canaries.session,
+                     lambda trs: {si for si, _ in judge_sessions(canary.NullCtx(), [_S(t) for t in trs], timeout, _canary=False)}, k=8)
     return [(cid - 1, l - 1) for cid, l in sorted(bad.items())]
